@@ -39,16 +39,35 @@ def table_lines(ctx, quick):
                 subs = list(dict.fromkeys(edge + r.sample(subs, 160)))       # thorough enumerates all 107 648 entries
             for occ in subs:
                 lines.append(f"chess atk {pc} {sq} {hex(occ)}")
+                lines.append(f"chess tatk {pc} {sq} {hex(occ)}")      # same entry against the generator model's ray walk
             for _ in range(4):                   # full random occupancies (outside the inner mask too)
-                lines.append(f"chess atk {pc} {sq} {hex(r.getrandbits(64))}")
-                lines.append(f"chess atk 2 {sq} {hex(r.getrandbits(64) & r.getrandbits(64))}")
+                o1, o2 = r.getrandbits(64), r.getrandbits(64) & r.getrandbits(64)
+                lines.append(f"chess atk {pc} {sq} {hex(o1)}"); lines.append(f"chess tatk {pc} {sq} {hex(o1)}")
+                lines.append(f"chess atk 2 {sq} {hex(o2)}"); lines.append(f"chess tatk 2 {sq} {hex(o2)}")
         for pc in (1, 5, 6, 12):
             lines.append(f"chess atk {pc} {sq} 0x0")
+            lines.append(f"chess tatk {pc} {sq} 0x0")
+        lines.append(f"chess imask 3 {sq}"); lines.append(f"chess imask 4 {sq}")
     for a in range(64):
         for b in range(64):
             lines.append(f"chess dir {a} {b}")
             lines.append(f"chess between {a} {b}")
     return lines
+
+
+def driver_parallel(lines):
+    """run the Lean driver over `lines` split across cores (the ops used here are stateless); None if it died"""
+    import concurrent.futures as cf
+    n = max(1, min(vlib.NCPU, len(lines) // 500 + 1))
+    parts = [lines[i::n] for i in range(n)]
+    with cf.ThreadPoolExecutor(n) as ex:
+        res = list(ex.map(lambda p: vlib.run_lines(vlib.driver_bin(), p), parts))
+    out = [None] * len(lines)
+    for i, (rc2, o, e) in enumerate(res):
+        if rc2 != 0 or len(o) != len(parts[i]):
+            return None
+        out[i::n] = o
+    return out
 
 
 def run(ctx):
@@ -78,6 +97,13 @@ def run(ctx):
     if mis is not None:
         ctx.violation(f"attack/geometry table entry differs from the ray-walk definition: `{tl[mis]}` impl {out1[mis]} spec {out2[mis]}",
                       {"kind": "table", "input": [tl[mis]], "impl": out1[mis], "spec": out2[mis]})
+    # the masks whose subsets are enumerated are the implementation's rMasks/bMasks (= the model's rookInner/bishopInner,
+    # compared above): Props.C01.rook_table_lift then extends the table comparison to all 2^64 occupancies
+    for i, l in enumerate(tl):
+        w = l.split()
+        if w[1] == "imask" and mis is None and int(out1[i], 16) != inner_mask(int(w[3]), w[2] == "3"):
+            ctx.violation(f"relevant-occupancy mask of square {w[3]} is not the set of inner ray squares: {out1[i]}",
+                          {"kind": "table", "input": [l], "impl": out1[i]})
     # 2. positions
     ngames, plies, nsyn = (300, 160, 20000) if quick else (4000, 220, 200000)
     fens = chessgen.games(ctx, ngames, plies) + chessgen.synthetic(ctx.rng, nsyn)
@@ -97,17 +123,26 @@ def run(ctx):
         ctx.violation(f"harness died in MoveGen on `{accepted[k]}` (rc={rc})", {"kind": "impl-crash", "input": [accepted[k]], "stderr": err})
         return
     chk = [f"chess mgchk {f} {d}" for f, d in zip(accepted, dumps)]
-    # split over cores
-    import concurrent.futures as cf
-    n = max(1, min(vlib.NCPU, len(chk) // 500 + 1))
-    parts = [chk[i::n] for i in range(n)]
-    with cf.ThreadPoolExecutor(n) as ex:
-        res = list(ex.map(lambda p: vlib.run_lines(vlib.driver_bin(), p), parts))
-    verdicts = [None] * len(chk)
-    for i, (rc2, o, e) in enumerate(res):
-        if rc2 != 0 or len(o) != len(parts[i]):
-            ctx.violation("Lean driver died in the acceptor", {"kind": "model-crash", "stderr": e[-500:]}, no_input=True); return
-        verdicts[i::n] = o
+    verdicts = driver_parallel(chk)
+    if verdicts is None:
+        ctx.violation("Lean driver died in the acceptor", {"kind": "model-crash"}, no_input=True); return
+    # 2b. the Lean model of the generator itself (Chess/TexelGen*.lean) against the real one, list order included
+    tl2 = [f"chess tmg {f}" for f in accepted]
+    rc, impl2, err = vlib.run_lines(vh, tl2)
+    model2 = driver_parallel(tl2)
+    if rc != 0 or len(impl2) != len(tl2) or model2 is None:
+        ctx.violation("harness or driver died in the generator differential", {"kind": "impl-crash", "stderr": err[-500:]}, no_input=True); return
+    ctx.count(len(tl2))
+    ctx.tie("movegen-model", kind="differential (real MoveGen vs the Lean model of its algorithms: in-check flag, pseudo-legal list in generation order, "
+            "isLegal verdict per move, list after removeIllegal, givesCheck per move, evasion / capture / capture-and-check lists in order)", positions=len(tl2))
+    nd = 0
+    for f, a, b in zip(accepted, impl2, model2):
+        if a != b:
+            nd += 1
+            if nd <= 3:
+                ctx.violation(f"MoveGen and the Lean model of its algorithms (Chess.Texel.*) disagree on `{f}`: impl `{a[:300]}` model `{b[:300]}` — "
+                              "the theorems Props.C01.texel_* no longer describe this code",
+                              {"kind": "correspondence", "tie": "movegen-model", "input": [f], "impl": a, "model": b}, no_input=True)
     stats = {"positions": len(accepted), "rejected_by_reader": rejected, "in_check": 0, "no_legal_move": 0, "with_ep": 0,
              "with_castling_rights": 0, "with_promotions": 0, "legal_moves_total": 0, "capture_class_moves": 0, "check_class_moves": 0}
     nbad = 0
